@@ -85,7 +85,7 @@ def _settings(I, T, ratio):
     return Fraction(I), Fraction(T)
 
 
-def t_silent(I, T, answered, ndata, ratio=4, reenter=False):
+def t_silent(I, T, answered, ndata, ratio=4, reenter=False, chatty=None):
     """peer answers the first `answered` pings at once, then never; `ndata` unrelated data frames arrive at symbolic times.
     The ping/pong timeout must be reported no later than (first unanswered ping) + 2T."""
     I, T = _settings(I, T, ratio)
@@ -95,6 +95,16 @@ def t_silent(I, T, answered, ndata, ratio=4, reenter=False):
         g = sx.sym_real("g%d" % j)
         sx.assume(sx.And(g > 0, g < horizon / max(1, ndata)))
         script.append((g, server_frame(1, 2, b"d")))
+    if chatty:
+        # the peer never answers pings but keeps SENDING: a data frame every chatty*T (< T) from a symbolic phase on, for the whole run
+        # ("whatever the timing of other traffic"): the select call of the loop never times out
+        delta = Fraction(chatty) * T
+        horizon = (answered + 2) * I + 3 * T  # (the first ping leaves two intervals after the connection is up)
+        g0 = sx.sym_real("g0")
+        sx.assume(sx.And(g0 > 0, g0 <= delta))
+        script.append((g0, server_frame(1, 2, b"c")))
+        for _ in range(int(horizon / delta) + 2):
+            script.append((delta, server_frame(1, 2, b"c")))
     spec = {"script": script, "on_frame_bytes": _pong_responder(answered, 0)}
     hooks = {}
     if reenter:
@@ -131,6 +141,59 @@ def t_silent(I, T, answered, ndata, ratio=4, reenter=False):
     after = [p for p in pings if touts and bool(p > touts[0][1])]
     sx.require(len(after) == 0, "no ping is sent after the connection ended", I=str(I), T=str(T))
     cover("silent")
+
+
+def t_silent_ext(I, T, answered):
+    """the same with an EXTERNAL (rel-style) dispatcher: run_forever(dispatcher=...) registers the reader and ONE check timer with
+    the external loop, which re-arms a timer whose callback returns a true value"""
+    from .c15 import FakeRel
+    I, T = Fraction(I), Fraction(T)
+    horizon = (answered + 6) * I
+    spec = {"script": [], "on_frame_bytes": _pong_responder(answered, 0)}
+    run = AppRun([spec], step_budget=4000)
+    run.net.ping_times = []
+    run.k.at(run.k.t0 + horizon, lambda: [s.deliver(close_frame(1000)) for s in run.net.socks if not s.closed])
+    rel = FakeRel(run.k)
+    raised = []
+    try:
+        try:
+            run.app.run_forever(dispatcher=rel, ping_interval=I, ping_timeout=T)
+            rel.dispatch(run.k.t0 + horizon + 10)
+        except simnet.KernelStuck:
+            sx.require(False, "external dispatcher loop blocked forever")
+            return
+        except (sx.Control, sx.ConcreteFailure, sx.ReplayMismatch):
+            raise
+        except simnet.KernelBudget:
+            sx.require(False, "external-dispatcher run does not come to an end")
+            return
+        except Exception as e:
+            # with an external loop the library's check() runs as that loop's timer callback and RAISES WebSocketTimeoutException into
+            # it: the exception leaving the external loop is the report (the property does not say through which channel)
+            from websocket._exceptions import WebSocketTimeoutException as _WTE
+            if isinstance(e, _WTE):
+                raised.append(("raised", run.k.now, (e,)))
+            else:
+                sx.require(False, "external-dispatcher run raised %s" % type(e).__name__)
+                return
+    finally:
+        run.alive = [t.is_alive() for t in run.k.live_threads]
+        run.k.shutdown()
+        simnet.uninstall()
+    from websocket._exceptions import WebSocketTimeoutException
+    touts = [t for t in run.of("on_error") if isinstance(t[2][0], WebSocketTimeoutException)] + raised
+    pings = run.net.ping_times
+    sx.require(len(pings) > answered, "pings keep being sent while the connection is up (external dispatcher)", n=len(pings), I=str(I), T=str(T))
+    if len(pings) <= answered:
+        return
+    first_unanswered = pings[answered]
+    sx.require(len(touts) == 1, "a peer that stops answering is reported as a ping/pong timeout (external dispatcher)", I=str(I), T=str(T),
+               answered=answered, got=len(touts))
+    if len(touts) == 1:
+        sx.require(touts[0][1] <= first_unanswered + 2 * T,
+                   "the timeout is reported no later than two timeouts after the first unanswered ping (external dispatcher)", I=str(I), T=str(T),
+                   answered=answered)
+    cover("silent-ext")
 
 
 def t_live(I, T, ndata, payload="hb", yield_on_send=False, ratio=4, tls=False, coalesce=False):
@@ -216,6 +279,9 @@ def obligations(tier):
     for (i, t) in (pairs if thorough else pairs[::4]):
         live += [dict(I=i, T=t, ndata=(1 if thorough else 0), tls=tl, coalesce=co) for tl in (False, True) for co in (False, True) if tl or co]
     silent += [dict(I=i, T=t, answered=1, ndata=0, reenter=True) for (i, t) in pairs[::5]]
+    # a peer that never answers pings but keeps sending data frames more often than once per timeout (round 7)
+    silent += [dict(I=i, T=t, answered=a, ndata=0, chatty=c) for (i, t) in (pairs if thorough else pairs[1::3]) for a in (0, 1) for c in ("1/2", "9/10")]
+    ext = [dict(I=i, T=t, answered=a) for (i, t) in (pairs if thorough else pairs[::2]) for a in (0, 1, 2)]
     R = 6 if thorough else 4
     silent_sym = [dict(I="sym", T="sym", answered=a, ndata=n, ratio=R) for a in (0, 1) for n in (0, 1)]
     live_sym = [dict(I="sym", T="sym", ndata=n, ratio=R) for n in ((0, 1) if thorough else (0,))] + [dict(I="sym", T="sym", ndata=0, ratio=R, yield_on_send=True)]
@@ -235,9 +301,12 @@ def obligations(tier):
                    must_cover=["refused", "accepted"], kernel=["WebSocketApp.run_forever (argument validation)"]),
         Obligation("T-silent", t_silent, silent,
                    bounds="15 grid pairs (T in {1,2,5}, I/T in {1.1,1.5,2,2.5,4}); peer answers the first 0..%d pings then never; 0..%d unrelated data frames at "
-                          "symbolic times (solver reals); horizon 6 intervals after the first unanswered ping; also with a second (refused) run_forever() call "
+                          "symbolic times (solver reals), or a data frame every T/2 / 0.9 T for the whole run from a symbolic phase on; horizon 6 intervals after the first unanswered ping; also with a second (refused) run_forever() call "
                           "with other settings made from on_open" % (2 if thorough else 1, 2 if thorough else 1),
                    must_cover=["silent"], budget_s=2400, step_budget=200000, kernel=["WebSocketApp._send_ping", "check", "Dispatcher.read", "_start_ping_thread", "_stop_ping_thread"]),
+        Obligation("T-silent-ext", t_silent_ext, ext,
+                   bounds="grid pairs; external rel-style dispatcher (reader + one re-arming check timer); peer answers the first 0..2 pings then never",
+                   must_cover=["silent-ext"], step_budget=200000, kernel=["WebSocketApp.run_forever (dispatcher=...)", "WrappedDispatcher.read / timeout", "check", "_send_ping"]),
         Obligation("T-live", t_live, live, bounds="15 grid pairs; every ping answered after a latency that is a solver real in [0,T); 0..%d data frames at symbolic "
                    "times; 3 pings; plain and TLS transport, pong alone or behind a data frame in the same segment / record" % (2 if thorough else 1), must_cover=["live"], budget_s=2400, step_budget=200000,
                    kernel=["WebSocketApp._send_ping", "check", "read (pong branch)", "Dispatcher.read", "SSLDispatcher.read", "SSLDispatcher.select"]),
